@@ -235,10 +235,14 @@ class Indentation(afmformats.AFMForceDistance):
             indentation depth and determining a plateau in the
             resulting Young's modulus (fitting parameter "E").
         """
-        if "preprocessing" in kwargs:
+        if "preprocessing" in kwargs or "preprocessing_options" in kwargs:
+            # (If only the options are given, they apply to the current
+            # preprocessing steps. Otherwise, the new options would be
+            # stored in `self.fit_properties` without ever being applied.)
+            steps = kwargs.get("preprocessing", self.preprocessing)
             options = kwargs.get("preprocessing_options",
                                  self.preprocessing_options)
-            self.apply_preprocessing(preprocessing=kwargs["preprocessing"],
+            self.apply_preprocessing(preprocessing=steps,
                                      options=options)
         # self.fit_properties is an instance of FitProperties that
         # stores previous fit kwargs. If the given kwargs are
